@@ -285,7 +285,7 @@ func (h *c18Hist) endPeriod(viaHTTP bool) (obsRep, error) {
 		}
 		v, perr := strconv.ParseUint(l.val, 10, 64)
 		if perr != nil {
-			return o, fmt.Errorf("unparsable value in /metrics line for %s statistic %s: %q", h.name, st, l.val)
+			return o, badCounterValue{name: "hist_" + h.name + " statistic " + st, val: l.val}
 		}
 		switch {
 		case st == "count":
@@ -319,6 +319,9 @@ func (h *c18Hist) endPeriod(viaHTTP bool) (obsRep, error) {
 		}
 		i, e1 := strconv.ParseUint(t[1:], 16, 32)
 		v, e2 := strconv.ParseUint(l.val, 10, 64)
+		if e1 == nil && e2 != nil {
+			return o, badCounterValue{name: "bhist_" + h.name + " bucket " + t, val: l.val}
+		}
 		if e1 != nil || e2 != nil || int(i) >= len(cur) {
 			return o, fmt.Errorf("bucket line %q %q", t, l.val)
 		}
@@ -439,7 +442,7 @@ func runHist(w *rig.Writer, pool *histPool, d c18HistDesc) (rig.Case, bool) {
 		}
 		o, err := h.endPeriod(d.HTTP)
 		if err != nil {
-			w.Fail(rig.GoFailure{Kind: "broken-correspondence", What: "reading a histogram period failed", Input: d, Detail: err.Error()})
+			counterReadFailure(w, d, err)
 			return rig.Case{}, false
 		}
 		d.Observed = append(d.Observed, o)
@@ -838,7 +841,29 @@ func readCounter(name string) (uint64, error) {
 	if len(ls) != 1 {
 		return 0, fmt.Errorf("%d lines for counter %s in /metrics", len(ls), name)
 	}
-	return strconv.ParseUint(ls[0].val, 10, 64)
+	v, perr := strconv.ParseUint(ls[0].val, 10, 64)
+	if perr != nil {
+		return 0, badCounterValue{name: name, val: ls[0].val}
+	}
+	return v, nil
+}
+
+// badCounterValue: /metrics printed something for a counter that is not the decimal form of a
+// uint64 - the value shown is then not the counter's value whatever the counter holds
+type badCounterValue struct{ name, val string }
+
+func (b badCounterValue) Error() string {
+	return fmt.Sprintf("counter %s is printed as %q, which is not an unsigned 64-bit decimal number", b.name, b.val)
+}
+
+// counterReadFailure: an unreadable endpoint is a broken correspondence, a wrongly printed value
+// is a counterexample (the counter's value is not what /metrics shows)
+func counterReadFailure(w *rig.Writer, in interface{}, err error) {
+	if b, ok := err.(badCounterValue); ok {
+		w.Fail(rig.GoFailure{Kind: "counterexample", What: "/metrics shows a counter or histogram statistic with a value that is not its value (not an unsigned decimal number)", Input: in, Detail: b.Error()})
+		return
+	}
+	counterReadFailure(w, in, err)
 }
 
 func runCounter(w *rig.Writer, d c18CounterDesc, pre []uint64) (rig.Case, bool) {
@@ -849,7 +874,7 @@ func runCounter(w *rig.Writer, d c18CounterDesc, pre []uint64) (rig.Case, bool) 
 	}
 	before, err := readCounter(name)
 	if err != nil {
-		w.Fail(rig.GoFailure{Kind: "broken-correspondence", What: "reading a counter from /metrics failed", Input: d, Detail: err.Error()})
+		counterReadFailure(w, d, err)
 		return rig.Case{}, false
 	}
 	var wg sync.WaitGroup
@@ -886,7 +911,7 @@ func runCounter(w *rig.Writer, d c18CounterDesc, pre []uint64) (rig.Case, bool) 
 	rwg.Wait()
 	after, err := readCounter(name)
 	if err != nil {
-		w.Fail(rig.GoFailure{Kind: "broken-correspondence", What: "reading a counter from /metrics failed", Input: d, Detail: err.Error()})
+		counterReadFailure(w, d, err)
 		return rig.Case{}, false
 	}
 	d.Before, d.After = before, after
@@ -962,7 +987,7 @@ func runConc(w *rig.Writer, d c18ConcDesc) (rig.Case, bool) {
 		d.Observed = append(d.Observed, o)
 	}
 	if rerr != nil {
-		w.Fail(rig.GoFailure{Kind: "broken-correspondence", What: "reading a histogram period failed (concurrent run)", Input: d, Detail: rerr.Error()})
+		counterReadFailure(w, d, rerr)
 		return rig.Case{}, false
 	}
 	nonempty := 0
@@ -1074,7 +1099,7 @@ func c18Contention(w *rig.Writer, thorough bool) {
 		got, err := readCounter(name)
 		in := map[string]interface{}{"kind": "counter-contention", "goroutines": g, "adds_per_goroutine": per}
 		if err != nil {
-			w.Fail(rig.GoFailure{Kind: "broken-correspondence", What: "reading a counter from /metrics failed", Input: in, Detail: err.Error()})
+			counterReadFailure(w, in, err)
 		} else if got != want {
 			w.Fail(rig.GoFailure{Kind: "counterexample", What: "a counter updated by several goroutines at once does not report the sum of the increments applied",
 				Input: in, Detail: fmt.Sprintf("reported %d, increments sum to %d (lost %d)", got, want, want-got)})
